@@ -358,6 +358,7 @@ func c08MapOrder(c *Ctx) {
 		if ml.Loop == nil {
 			// materialised keys: fine when they are sorted before use
 			sorted := false
+			staleWhy := ""
 			instrs(ml.Fn, func(bk *ssa.BasicBlock, i int, in ssa.Instruction) {
 				call, isC := in.(*ssa.Call)
 				if !isC || len(call.Call.Args) == 0 {
@@ -377,9 +378,50 @@ func c08MapOrder(c *Ctx) {
 						sorted = true
 					}
 				}
+				// sort.Slice(keys, less): less(i, j) must order by keys[i] and keys[j] themselves. Indexing another slice
+				// (names precomputed in the original order) compares stale entries once the sort has swapped elements:
+				// the resulting order depends on the order the map happened to deliver.
+				if sorted && len(call.Call.Args) >= 2 && (cal.String() == "sort.Slice" || cal.String() == "sort.SliceStable") {
+					if mc, isMC := call.Call.Args[1].(*ssa.MakeClosure); isMC {
+						var sortedCell ssa.Value
+						if u, isU := stripIface(call.Call.Args[0]).(*ssa.UnOp); isU {
+							sortedCell = u.X
+						}
+						if fn, isFn := mc.Fn.(*ssa.Function); isFn {
+							instrs(fn, func(_ *ssa.BasicBlock, _ int, x ssa.Instruction) {
+								var base, idx ssa.Value
+								switch y := x.(type) {
+								case *ssa.IndexAddr:
+									base, idx = y.X, y.Index
+								case *ssa.Index:
+									base, idx = y.X, y.Index
+								default:
+									return
+								}
+								if _, isParam := idx.(*ssa.Parameter); !isParam {
+									return
+								}
+								if u, isU := base.(*ssa.UnOp); isU {
+									if fv, isFV := u.X.(*ssa.FreeVar); isFV {
+										for k, v := range fn.FreeVars {
+											if v == fv && k < len(mc.Bindings) && (sortedCell == nil || mc.Bindings[k] != sortedCell) {
+												sorted = false
+												staleWhy = "the comparison function of " + cal.String() + " indexes `" + fv.Name() + "`, not the slice being sorted: after the first swap it compares stale entries, so the order depends on the map's iteration order"
+											}
+										}
+									}
+								}
+							})
+						}
+					}
+				}
 			})
 			if sorted {
 				c.R.Add(rule, cons, c.P.InstrPos(ml.In), OK, "")
+				continue
+			}
+			if staleWhy != "" {
+				c.R.Add(rule, cons, c.P.InstrPos(ml.In), Violation, staleWhy)
 				continue
 			}
 			c.R.Add(rule, cons, c.P.InstrPos(ml.In), Violation, "map keys are materialised in iteration order; unless sorted, that order reaches the result")
